@@ -248,6 +248,44 @@ func c16ConfigCase(c *Ctx) *Result {
 			}
 		}
 	}
+	// the documented limits are enforced wherever they are broken in a pattern (validation is the gate
+	// for everything downstream: a nonce prefix longer than 12 bytes would pin the whole nonce)
+	for i := 0; i < 40 && sig == ""; i++ {
+		good := func() string { b := make([]byte, pick(r, 1, 4, 8, 12)); r.Read(b); return hex.EncodeToString(b) }
+		n := &appctlpb.NoncePattern{Type: appctlpb.NonceType_NONCE_TYPE_FIXED.Enum()}
+		k := 1 + r.Intn(4)
+		badAt := r.Intn(k)
+		what := pick(r, "prefix-longer-than-12-bytes", "prefix-not-hex", "minLen-above-12", "maxLen-above-12", "minLen-above-maxLen")
+		for j := 0; j < k; j++ {
+			h := good()
+			if j == badAt {
+				switch what {
+				case "prefix-longer-than-12-bytes":
+					b := make([]byte, pick(r, 13, 16, 24, 40))
+					r.Read(b)
+					h = hex.EncodeToString(b)
+				case "prefix-not-hex":
+					h = pick(r, "zz", "0g", "abc", "12 34", "0x12")
+				}
+			}
+			n.CustomHexStrings = append(n.CustomHexStrings, h)
+		}
+		switch what {
+		case "minLen-above-12":
+			n.MinLen = proto.Int32(int32(13 + r.Intn(5)))
+		case "maxLen-above-12":
+			n.MaxLen = proto.Int32(int32(13 + r.Intn(5)))
+		case "minLen-above-maxLen":
+			n.MinLen, n.MaxLen = proto.Int32(9), proto.Int32(int32(r.Intn(9)))
+		}
+		bad := &appctlpb.TrafficPattern{Nonce: n}
+		res.Obs["invalid_patterns"]++
+		if err := trafficpattern.Validate(bad); err == nil {
+			fail("invalid-pattern-accepted|"+what, fmt.Sprintf("Validate accepted a nonce pattern with %s (entry %d of %d): %v", what, badAt+1, k, n))
+		} else if _, err := trafficpattern.NewConfig(bad); err == nil {
+			fail("invalid-pattern-accepted-by-NewConfig|"+what, fmt.Sprintf("%v", n))
+		}
+	}
 	res.Shape = shapeHash(c.Idx)
 	if sig != "" {
 		res.Verdict, res.Sig, res.Detail = Violated, "C16|config|"+sig, detail
